@@ -13,6 +13,6 @@ CONSTANTS
   CoreSizes <- CoreSizesB
   OOBLens <- OOBLensB
   MaxOut = 6
-INVARIANTS LenBound MtuAccepted SizeFieldRule TypeMatchesPosition IdsDistinct ParityCoversGroup IntegrityGuards OOBNeverEntersFecOrKcp SessionOnlyForNewConversation ForeignConvNeverMerged
+INVARIANTS LenBound MtuAccepted SizeFieldRule TypeMatchesPosition IdsDistinct ParityCoversGroup IntegrityGuards OOBNeverEntersFecOrKcp OOBOnlyOwnConversation SessionOnlyForNewConversation ForeignConvNeverMerged
 PROPERTIES OOBConsumesNoSeqid
 CHECK_DEADLOCK FALSE
